@@ -532,3 +532,34 @@ func ExtrasMismatch(d *vfkit.Decoded, qname vfkit.Name) string {
 	}
 	return ""
 }
+
+// DoStreamed sends a POST whose body reaches the server in two parts with a pause in between (no Content-Length), so
+// that the body-read phases of requests multiplexed on one HTTP/2 connection overlap.
+func (c *DoHClient) DoStreamed(q []byte, cut int, pause time.Duration) (*Resp, error) {
+	pr, pw := io.Pipe()
+	go func() {
+		if cut > len(q) {
+			cut = len(q)
+		}
+		pw.Write(q[:cut])
+		if pause > 0 {
+			time.Sleep(pause)
+		}
+		pw.Write(q[cut:])
+		pw.Close()
+	}()
+	req, err := http.NewRequest(http.MethodPost, c.URL, pr)
+	if err != nil {
+		return nil, err
+	}
+	req.Header.Set("Content-Type", "application/dns-message")
+	resp, err := c.hc.Do(req)
+	if err != nil {
+		return nil, err
+	}
+	defer resp.Body.Close()
+	b, _ := io.ReadAll(io.LimitReader(resp.Body, 1<<20))
+	r := newResp(b)
+	r.Status = resp.StatusCode
+	return r, nil
+}
